@@ -1,9 +1,9 @@
 CONSTANTS
   MaxChain = 1
-  PathSet <- Quick1Paths
-  Combos <- QuickCombos
-  ClsSet <- Classes
-  OrderSet <- BothOrders
+  PathSet <- SvPairwise
+  Combos <- SvCombos
+  ClsSet <- ArrayOnly
+  OrderSet <- OrigFirst
   PreSet <- PlainPre
 INIT Init
 NEXT Next
